@@ -21,10 +21,23 @@ package internal
 //@   effectfree
 //@   trusted "closing a channel has no effect on verified state; closing one that is registered with signal.Notify makes the next signal delivery panic"
 
+// Channels on which termination signals are delivered: while a channel is registered with signal.Notify a further
+// SIGTERM / SIGINT is queued or dropped; once the last registration is gone the default disposition (kill) is back.
+//@ ghost var sigHandled gset[int]
+//@ extern func os/signal.Notify(c chan<- os.Signal, sig []os.Signal)
+//@   ensures sigHandled == old(sigHandled)[c := true]
+//@   modifies sigHandled
+//@   trusted "os/signal: Notify registers the channel"
+//@ extern func os/signal.Stop(c chan<- os.Signal)
+//@   ensures sigHandled == old(sigHandled)[c := false]
+//@   modifies sigHandled
+//@   trusted "os/signal: Stop unregisters the channel; with no registration left the default disposition applies again"
+
 //@ func RunDaemon$10
 //@   params (err)
 //@   props C03
 //@   atcall[C03.noclose] close: false
+//@   ensures[C03.handled] sigHandled == old(sigHandled)
 //@   modifies anything
 
 //@ func RunDaemon$9
